@@ -3,6 +3,8 @@
 Every check must exit 0 without a VIOLATION line.  usage: eval_refactors.py [refactor id ...]   (writes refactors/RESULTS.md)"""
 import json, os, shutil, subprocess, sys, tempfile
 
+ROOT = os.path.dirname(os.path.dirname(os.path.abspath(__file__)))
+
 CHECKS = {"R1_receiver_ack_helper": ["C01", "C02", "C03", "C04", "C05", "C06", "C07", "C10", "C12"],
           "R2_scheduler_kicker": ["C09", "C10", "C11", "C14", "C15", "C16"],
           "R3_procman_retry": ["C11", "C17", "C18"],
@@ -13,7 +15,20 @@ CHECKS = {"R1_receiver_ack_helper": ["C01", "C02", "C03", "C04", "C05", "C06", "
           "R8_scheduler_variants": ["C13", "C14", "C15", "C16"],
           "R9_kicker_retry_params_orders": ["C08", "C09", "C10", "C11", "C16"],
           "R10_serialization_orders": ["C19", "C20", "C07"],
-          "R11_scheduler_wake_margin": ["C13", "C14", "C15", "C16"]}
+          "R11_scheduler_wake_margin": ["C13", "C14", "C15", "C16"],
+          # written by independent sub-agents (given only the property texts and a scratch worktree)
+          "R12_receiver_listen_restructure": ["C01", "C03", "C04", "C05"],
+          "R13_receiver_callback_path": ["C01", "C02", "C03", "C04", "C05", "C06", "C07", "C10", "C12"],
+          "R14_periphery_inmem_context_api": ["C01", "C05", "C07", "C09", "C10", "C12"],
+          "R15_sched_loop_two_phase": ["C15", "C16"],
+          "R16_sched_delay_split": ["C13", "C14", "C15", "C16"],
+          "R17_kicker_label_lookup": ["C09", "C10", "C11", "C16"],
+          "R18_spawn_helper_params_split": ["C08", "C17", "C18"],
+          "R19_procman_start_split": ["C17", "C18"],
+          "R20_retry_decor_procman": ["C11", "C17", "C18", "C09"],
+          "R21_ser_prepare_helpers": ["C19", "C20", "C07"],
+          "R22_ser_load_labels": ["C19", "C20", "C09"],
+          "R23_ser_cycle_adapter_formatters": ["C19", "C20", "C08", "C09"]}
 
 def sh(cmd):
     return subprocess.run(cmd, shell=True, capture_output=True, text=True)
@@ -23,11 +38,11 @@ for rid in (sys.argv[1:] or sorted(CHECKS)):
     wt = tempfile.mkdtemp(prefix="verif-rf-", dir="/tmp"); os.rmdir(wt)
     assert sh(f"git -C /repo worktree add -q --detach {wt} HEAD").returncode == 0
     try:
-        r = sh(f"git -C {wt} apply /verif/refactors/{rid}/patch.diff")
+        r = sh(f"git -C {wt} apply {ROOT}/refactors/{rid}/patch.diff")
         assert r.returncode == 0, r.stderr
         for p in CHECKS[rid]:
             env = dict(os.environ, VERIF_REPO=wt)
-            r = subprocess.run(["/verif/check", p, "--tier", "quick"], env=env, capture_output=True, text=True)
+            r = subprocess.run([ROOT + "/check", p, "--tier", "quick"], env=env, capture_output=True, text=True)
             out = r.stdout + r.stderr
             div = out.count("DIVERGENCE")
             status = "QUIET" if r.returncode == 0 and "VIOLATION" not in out else ("FALSE-ALARM" if r.returncode == 1 else "MACHINERY")
@@ -37,13 +52,13 @@ for rid in (sys.argv[1:] or sorted(CHECKS)):
         sh(f"git -C /repo worktree remove --force {wt}")
         shutil.rmtree(wt, ignore_errors=True)
 prev = []
-if sys.argv[1:] and os.path.exists("/verif/refactors/RESULTS.md"):
-    for line in open("/verif/refactors/RESULTS.md"):
+if sys.argv[1:] and os.path.exists(ROOT + "/refactors/RESULTS.md"):
+    for line in open(ROOT + "/refactors/RESULTS.md"):
         c = [x.strip() for x in line.strip().strip("|").split("|")]
         if len(c) == 4 and c[0].startswith("R") and c[0] not in sys.argv[1:]:
             prev.append((c[0], c[1], c[2], int(c[3])))
 rows = prev + rows
-with open("/verif/refactors/RESULTS.md", "w") as f:
+with open(ROOT + "/refactors/RESULTS.md", "w") as f:
     f.write("# Behaviour-preserving refactors: no check may raise an alarm\n\n| refactor | check | result | model divergences reported |\n|---|---|---|---|\n")
     for r in rows:
         f.write("| %s | %s | %s | %d |\n" % r)
